@@ -63,7 +63,7 @@ impl SeparableNonlinearModel for KModel {
 
 /// SVD contract stub, concrete variant: returns the exact factorisation of a 1x1 / Nx1 matrix with
 /// non-negative entries in its first column direction e_0 (harnesses only hand such matrices over)
-pub unsafe fn svd_stub_concrete(_tid: std::any::TypeId, data: *const u8, nrows: usize, ncols: usize, u: *mut u8, s: *mut u8, vt: *mut u8) -> bool {
+pub unsafe fn svd_stub_concrete(_tid: std::any::TypeId, data: *const u8, nrows: usize, ncols: usize, u: *mut u8, s: *mut u8, vt: *mut u8, _eps: *const u8, _max_niter: usize) -> bool {
     let d = data as *const f64;
     let (u, s, vt) = (u as *mut f64, s as *mut f64, vt as *mut f64);
     // harness matrices are (a, 0, ..., 0)^T with a >= 0 : U = e_0, sigma = a, V = 1
@@ -81,7 +81,7 @@ pub unsafe fn svd_stub_concrete(_tid: std::any::TypeId, data: *const u8, nrows: 
 /// SVD contract stub, precondition variant: asserts that every entry handed to the SVD is finite
 /// (nalgebra's SVD panics with "Singular value was NaN" for M >= 2 and does not terminate for M >= 3
 /// otherwise) and then cuts the path: what happens after the SVD is explored by other harnesses.
-pub unsafe fn svd_stub_precondition(_tid: std::any::TypeId, data: *const u8, nrows: usize, ncols: usize, _u: *mut u8, _s: *mut u8, _vt: *mut u8) -> bool {
+pub unsafe fn svd_stub_precondition(_tid: std::any::TypeId, data: *const u8, nrows: usize, ncols: usize, _u: *mut u8, _s: *mut u8, _vt: *mut u8, _eps: *const u8, _max_niter: usize) -> bool {
     let d = data as *const f64;
     let mut i = 0;
     while i < nrows * ncols {
@@ -94,7 +94,7 @@ pub unsafe fn svd_stub_precondition(_tid: std::any::TypeId, data: *const u8, nro
 }
 
 /// SVD contract stub, arbitrary-result variant: finite input asserted, arbitrary factors returned
-pub unsafe fn svd_stub_arbitrary(_tid: std::any::TypeId, data: *const u8, nrows: usize, ncols: usize, u: *mut u8, s: *mut u8, vt: *mut u8) -> bool {
+pub unsafe fn svd_stub_arbitrary(_tid: std::any::TypeId, data: *const u8, nrows: usize, ncols: usize, u: *mut u8, s: *mut u8, vt: *mut u8, _eps: *const u8, _max_niter: usize) -> bool {
     let k = if nrows < ncols { nrows } else { ncols };
     let d = data as *const f64;
     let mut i = 0;
@@ -233,7 +233,7 @@ fn k_set_params_fault_logic() {
 
 static mut SVD_CALLED: bool = false;
 /// SVD stub that records the call and cuts the path
-pub unsafe fn svd_stub_flag(_tid: std::any::TypeId, _data: *const u8, _nrows: usize, _ncols: usize, _u: *mut u8, _s: *mut u8, _vt: *mut u8) -> bool {
+pub unsafe fn svd_stub_flag(_tid: std::any::TypeId, _data: *const u8, _nrows: usize, _ncols: usize, _u: *mut u8, _s: *mut u8, _vt: *mut u8, _eps: *const u8, _max_niter: usize) -> bool {
     SVD_CALLED = true;
     assert!(false, "the SVD was computed although the model rejected the update / failed to evaluate");
     true
@@ -300,19 +300,22 @@ fn k_no_panic_downstream_of_svd() {
     }
 }
 
-/// C03 / C10: `copy_matrix_to_column` writes the whole Jacobian column in column-major order
+/// C03 / C10: `copy_matrix_to_column` overwrites the whole Jacobian column in column-major order (for every
+/// previous content of the target) and touches nothing else
 #[kani::proof]
-#[kani::unwind(8)]
+#[kani::unwind(14)]
 fn k_copy_matrix_to_column() {
     let a: [u32; 6] = kani::any();
+    let init: [u32; 12] = kani::any();
     let src = DMatrix::<u32>::from_column_slice(3, 2, &a);
-    let mut jac = unsafe { nalgebra::UninitMatrix::<u32, Dyn, Dyn>::uninit(Dyn(6), Dyn(2)).assume_init() };
+    let mut jac = DMatrix::<u32>::from_column_slice(6, 2, &init);
     {
         let mut col = jac.column_mut(1);
         copy_matrix_to_column(src, &mut col);
     }
     for k in 0..6 {
         assert!(jac[(k, 1)] == a[k]);
+        assert!(jac[(k, 0)] == init[k]);
     }
     kani::cover!(jac[(5, 1)] == 7, "reachable");
 }
@@ -341,17 +344,41 @@ fn k_into_sequential_preserves_state() {
 }
 
 
+
+/// C04 / C09 (quick): the real `fit` through the real Levenberg-Marquardt driver on a problem whose cache is
+/// absent (the model failed to evaluate): Err(User) carrying the problem unchanged
 #[kani::proof]
 #[kani::unwind(6)]
-fn k_probe_fit_nocache() {
+fn k_fit_err_on_absent_cache() {
     let problem = fabricated(4.0, 0.0, false, true, false);
     let r = LevMarSolver::default().fit(problem);
-    assert!(r.is_err());
+    match r {
+        Ok(_) => assert!(false),
+        Err(fr) => {
+            assert!(!fr.was_successful());
+            assert!(matches!(fr.minimization_report.termination, levenberg_marquardt::TerminationReason::User(_)));
+            assert!(fr.problem.cached.is_none());
+            assert!(fr.linear_coefficients().is_none() && fr.best_fit().is_none());
+            assert!(fr.nonlinear_parameters()[0] == 1.0);
+            assert!(fr.problem.Y_w[(0, 0)] == 4.0);
+            kani::cover!(true, "reachable: Err");
+        }
+    }
 }
+
+/// C04 (thorough): zero residuals => Ok(ResidualsZero)
 #[kani::proof]
 #[kani::unwind(6)]
-fn k_probe_fit_zero() {
+fn k_fit_ok_on_zero_residuals() {
     let problem = fabricated(4.0, 0.0, true, false, false);
     let r = LevMarSolver::default().fit(problem);
-    assert!(r.is_ok());
+    match r {
+        Ok(fr) => {
+            assert!(fr.was_successful());
+            assert!(matches!(fr.minimization_report.termination, levenberg_marquardt::TerminationReason::ResidualsZero));
+            assert!(fr.linear_coefficients().unwrap()[0] == 2.0);
+            kani::cover!(true, "reachable: Ok");
+        }
+        Err(_) => assert!(false),
+    }
 }
